@@ -2,6 +2,8 @@
 // usage: ripser_bits f128 <op> ah al bh bl      |  ripser_bits sparse x <dist-bits> <threshold-bits>
 #include <gudhi/uint128.h>
 #include <gudhi/ripser.h>
+#include <cmath>
+#include <limits>
 #include <cstdio>
 #include <cstdlib>
 #include <cstring>
@@ -23,4 +25,10 @@ int main(int argc, char** argv) {
   if (w == "sparse") { float d = fbits(argv[3]), t = fbits(argv[4]); Mat m{d};
     Gudhi::ripser::Sparse_distance_matrix<P> s(m, t); bool kept = !s.neighbors[0].empty(); bool want = d <= t;
     printf("distance %g, threshold %g: edge kept = %d, expected %d\n", d, t, kept, want); return kept == want ? 0 : 1; }
+  if (w == "dense") {   // the unit square, no threshold: H1 class born at 1 must die at sqrt(2) (cofacets of diameter == enclosing radius are part of the complex)
+    typedef Gudhi::ripser::Full_distance_matrix<P> FM; struct Sq { typedef int vertex_t; typedef float value_t; int size() const { return 4; } float operator()(int i, int j) const { static const float x[4] = {0, 1, 1, 0}, y[4] = {0, 0, 1, 1}; return std::sqrt((x[i] - x[j]) * (x[i] - x[j]) + (y[i] - y[j]) * (y[i] - y[j])); } };
+    FM fm{Sq()}; int dim = 0; bool inf1 = false, fin1 = false;
+    Gudhi::ripser::ripser_auto(std::move(fm), 1, std::numeric_limits<float>::infinity(), 2, [&](int d) { dim = d; }, [&](float b, float d) { if (dim == 1 && d > b) { if (std::isinf(d)) inf1 = true; else fin1 = true; } });
+    printf("unit square, no threshold: H1 interval %s\n", inf1 ? "[1, inf)  <-- the class never dies" : fin1 ? "[1, 1.414)" : "missing");
+    return (fin1 && !inf1) ? 0 : 1; }
   return 3; }
